@@ -12,7 +12,14 @@ cp "$D" $W/sentinel-core/tests/$N.rs
 git -C $W apply "$P" || { echo "PATCH DOES NOT APPLY"; exit 3; }
 (cd $W && cargo test --offline -p sentinel-core $FE --test $N -- --test-threads=1 >/tmp/confirm-c.log 2>&1) && C=pass || C=fail
 rm -f $W/sentinel-core/tests/$N.rs
-B=$(cd $W && cargo test --workspace --no-fail-fast --offline 2>&1 | grep -E "^test result" | head -1)
+(cd $W && cargo test --workspace --no-fail-fast --offline >/tmp/confirm-b.log 2>&1)
+B=$(grep -E "^test result" /tmp/confirm-b.log | head -1)
+FT=$(grep -E "^test .* FAILED" /tmp/confirm-b.log | tr '\n' ' ')
+if [ -n "$FT" ]; then
+  # a failure in the existing suite: run it once more (the suite has one wall-clock sensitive test) and report both runs
+  (cd $W && cargo test --workspace --no-fail-fast --offline >/tmp/confirm-b2.log 2>&1)
+  B="$B first-run-failures: $FT second run: $(grep -E "^test result" /tmp/confirm-b2.log | head -1) $(grep -E "^test .* FAILED" /tmp/confirm-b2.log | tr '\n' ' ')"
+fi
 git -C $W checkout -q -- .
 echo "DEMO_UNCHANGED=$U DEMO_CHANGED=$C BASELINE_CHANGED=[$B]"
 echo "$N DEMO_UNCHANGED=$U DEMO_CHANGED=$C BASELINE_CHANGED=[$B]" >> /tmp/confirm-summary.txt
